@@ -340,16 +340,34 @@ def keySet (rows : List Row) (rowKeysChange : Bool) : List Str :=
     | [] => []
     | r :: _ => dedup (r.map (·.1))
 
-/-- `txkeys = dict((transform(key), key) for key in all_keys)` with the key SET iterated in the order
-    `keys` (hash order in CPython — a parameter here): a later key wins a clash -/
+/-- `dict((transform(key), key) for key in keys)`: a later key wins a clash.  With `keys` = the hash
+    order of the key set this was the whole table before fix 1e9b608 (order dependent) -/
 def txKeysOf (keys : List Str) : Dict := fromPairs (keys.map (fun k => (txKey k, k)))
 
-/-- is `order` an iteration order of the key set `keys` (same elements, no repetition) -/
-def isOrderOf (order keys : List Str) : Bool :=
-  order.all (fun k => keys.contains k) && keys.all (fun k => order.contains k) && order.length == keys.length
+/-- Python's order on `str`: lexicographic on code points -/
+def strLe : Str → Str → Bool
+  | [], _ => true
+  | _ :: _, [] => false
+  | a :: as, b :: bs => if a.toNat < b.toNat then true else if b.toNat < a.toNat then false else strLe as bs
 
-/-- `txkeys` with the key set in first-occurrence order -/
-def txKeys (rows : List Row) (rowKeysChange : Bool) : Dict := txKeysOf (keySet rows rowKeysChange)
+def insertSorted (k : Str) : List Str → List Str
+  | [] => [k]
+  | x :: xs => if strLe k x then k :: x :: xs else x :: insertSorted k xs
+
+/-- `sorted(all_keys)` (the elements of a set are distinct, so stability plays no role) -/
+def sortKeys : List Str → List Str
+  | [] => []
+  | k :: ks => insertSorted k (sortKeys ks)
+
+/-- one assignment of `txkeys.update((key, key) for key in all_keys if key in txkeys)` -/
+def updSelf (d : Dict) (k : Str) : Dict := if (dictGet d k).isSome then dictSet d k k else d
+
+/-- `txkeys` as built since fix 1e9b608, `keys` = the key set in ANY iteration order: the table over
+    `sorted(all_keys)`, then every heading that is itself a keyword of the table names itself -/
+def txKeysFix (keys : List Str) : Dict := keys.foldl updSelf (txKeysOf (sortKeys keys))
+
+/-- `txkeys` of the rows -/
+def txKeys (rows : List Row) (rowKeysChange : Bool) : Dict := txKeysFix (keySet rows rowKeysChange)
 
 /-- split a search keyword into data key and matcher name -/
 def splitKeyword (names : List Str) (kw : Str) : Str × Str :=
@@ -392,23 +410,23 @@ def keywordSearch (table : List (Str × Matcher)) (rows : List Row) (rowKeysChan
   keywordSearchTx table (txKeys rows rowKeysChange) rows kwargs
 
 /-- one call `keyword_search(rows, parent=p, **kwargs)`: `cache` = `p._transform_cache` when the
-    attribute exists, `order` = the iteration order of the key set in this call; returns the rows found
-    and the cache afterwards (the early returns for no keywords / no rows do not touch it) -/
-def keywordSearchCached (table : List (Str × Matcher)) (cache : Option Dict) (order : List Str)
+    attribute exists, `keys` = the key set of this call; returns the rows found and the cache
+    afterwards (the early returns for no keywords / no rows do not touch it) -/
+def keywordSearchCached (table : List (Str × Matcher)) (cache : Option Dict) (keys : List Str)
     (rows : List Row) (kwargs : List (Str × Str)) : List Row × Option Dict :=
   if kwargs.isEmpty || rows.isEmpty then ([], cache) else
   let tx := match cache with
     | some tx => tx
-    | none => txKeysOf order
+    | none => txKeysFix keys
   (keywordSearchTx table tx rows kwargs, some tx)
 
 /-- successive calls on the same parent -/
-def keywordSearchSeq (table : List (Str × Matcher)) (order : List Str) (rows : List Row) :
+def keywordSearchSeq (table : List (Str × Matcher)) (keys : List Str) (rows : List Row) :
     Option Dict → List (List (Str × Str)) → List (List Row)
   | _, [] => []
   | cache, kw :: rest =>
-    let r := keywordSearchCached table cache order rows kw
-    r.1 :: keywordSearchSeq table order rows r.2 rest
+    let r := keywordSearchCached table cache keys rows kw
+    r.1 :: keywordSearchSeq table keys rows r.2 rest
 
 /-! ### IniConfigFile: the dictionary view over the parsed tree -/
 
